@@ -845,7 +845,9 @@ def _pack_asn1_utf8_string(
 def _encode_object_identifier(oid: str) -> bytes:
     """Encode an object identifier."""
     cmps = list(map(int, oid.split(".")))
-    if cmps[0] > 39 or cmps[1] > 39:
+    # X.690 8.19.4: the first two arcs share a subidentifier of 40 * arc1 + arc2.
+    # The first arc is 0, 1, or 2 and only under arc 2 can the second exceed 39.
+    if len(cmps) < 2 or cmps[0] > 2 or (cmps[0] < 2 and cmps[1] > 39):
         raise ValueError("Illegal object identifier")
     cmps = [40 * cmps[0] + cmps[1]] + cmps[2:]
     cmps.reverse()
@@ -1014,15 +1016,20 @@ def _read_asn1_object_identifier(
         hint=hint,
     )
 
-    first_element = struct.unpack("B", raw_oid[:1])[0]
-    second_element = first_element % 40
-    ids = [(first_element - second_element) // 40, second_element]
+    if not raw_oid:
+        raise ValueError("Invalid ASN.1 OBJECT IDENTIFIER value: no content octets")
 
-    idx = 1
+    ids: t.List[int] = []
+    idx = 0
     while idx != len(raw_oid):
         oid, octet_len = _unpack_asn1_octet_number(raw_oid[idx:])
         ids.append(oid)
         idx += octet_len
+
+    # The first subidentifier is 40 * arc1 + arc2, arc1 is 0, 1, or 2 and
+    # anything from 80 onwards belongs to arc 2 (arc2 is unbounded there).
+    first_element = min(ids[0] // 40, 2)
+    ids[0:1] = [first_element, ids[0] - (40 * first_element)]
 
     return ".".join([str(i) for i in ids]), consumed
 
